@@ -55,9 +55,15 @@ NB = E("ge", var="w", c=1)
 # builders of the nested spec record
 
 
-def act(id, uses="irq", cond=NOCOND, catches=(), timeouts=(), setup=()):
-    return {"id": id, "uses": uses, "cond": cond, "catches": list(catches),
-            "timeouts": list(timeouts), "setup": list(setup)}
+def act(id, uses="irq", cond=NOCOND, catches=(), timeouts=(), setup=(), to=None, cpid=None, opts=None):
+    d = {"id": id, "uses": uses, "cond": cond, "catches": list(catches),
+         "timeouts": list(timeouts), "setup": list(setup)}
+    if uses == "sub":
+        # a call of the workflow `to`; the child gets the process id `cpid` and the inputs `opts`
+        d["to"] = to
+        d["cpid"] = cpid
+        d["opts"] = {"v": 0, "w": 0, **(opts or {})}
+    return d
 
 
 def step(id, cond=NOCOND, branches=(), acts=(), catches=(), timeouts=(), setup=(), next=NIL):
@@ -86,7 +92,7 @@ def workflow(id, steps, setup=()):
 # ----------------------------------------------------------------------------------------
 # rendering for the engine
 
-USES = {"irq": "acts.core.irq", "msg": "acts.core.msg", "": "", "bad": "no.such.pack"}
+USES = {"irq": "acts.core.irq", "msg": "acts.core.msg", "": "", "bad": "no.such.pack", "sub": "acts.core.subflow"}
 
 
 def r_cond(d, e):
@@ -110,6 +116,8 @@ def r_timeouts(ts):
 
 def r_act(a):
     d = {"id": a["id"], "uses": USES[a["uses"]], "key": "k_" + a["id"]}
+    if a["uses"] == "sub":
+        d["params"] = {"to": a["to"], "options": {"pid": a["cpid"], **a["opts"]}}
     r_cond(d, a["cond"])
     if a["catches"]:
         d["catches"] = r_catches(a["catches"])
@@ -292,6 +300,84 @@ def hand():
         step("s1", acts=[act("a1", uses="bad")], catches=[catch(NIL, [step("c1")])]),
         step("s2"),
     ])))
+    return out
+
+
+def bundle(name, main, subs=()):
+    """several workflows deployed in one engine: the lines of the others come first, the main one last;
+    every spec record carries its offset to the main line and the size of the bundle"""
+    ws = list(subs) + [main]
+    out = []
+    for i, w in enumerate(ws):
+        w = dict(w)
+        w["boff"] = len(ws) - 1 - i
+        w["bsize"] = len(ws)
+        ln = line(name if i == len(ws) - 1 else f"{name}__{w['id']}", w)
+        ln["bundle"] = name
+        out.append(ln)
+    return out
+
+
+def with_id(w, id):
+    w = json.loads(json.dumps(w))
+    w["id"] = id
+    return w
+
+
+def subflow():
+    out = []
+    child = workflow("c", [step("cs1", acts=[act("ca1")])])
+    out += bundle("sub_wait", workflow("m", [
+        step("s1", acts=[act("a1", uses="sub", to="c", cpid="c1")]), step("s2")]), [child])
+    out += bundle("sub_race", workflow("m", [
+        step("s1", acts=[act("a1", uses="sub", to="c", cpid="c1"), act("a2")]),
+        step("s2", acts=[act("a3")])]), [child])
+    out += bundle("sub_instant", workflow("m", [
+        step("s1", acts=[act("a1", uses="sub", to="c", cpid="c1")]),
+        step("s2", acts=[act("a2")])]), [workflow("c", [step("cs1")])])
+    out += bundle("sub_missing", workflow("m", [
+        step("s1", acts=[act("a1", uses="sub", to="nomodel", cpid="c1")]), step("s2")]))
+    out += bundle("sub_missing_caught", workflow("m", [
+        step("s1", acts=[act("a1", uses="sub", to="nomodel", cpid="c1")], catches=[catch(NIL, [step("c1")])]),
+        step("s2", acts=[act("a2")])]))
+    out += bundle("sub_nested", workflow("m", [
+        step("s1", acts=[act("a1", uses="sub", to="c", cpid="c1")]), step("s2")]),
+        [workflow("g", [step("gs1", acts=[act("ga1")])]),
+         workflow("c", [step("cs1", acts=[act("ca1", uses="sub", to="g", cpid="g1")])])])
+    out += bundle("sub_catch", workflow("m", [
+        step("s1", acts=[act("a1", uses="sub", to="c", cpid="c1",
+                             catches=[catch("e1", [step("k1", acts=[act("ka1")])])])]),
+        step("s2")]), [child])
+    out += bundle("sub_two", workflow("m", [
+        step("s1", acts=[act("a1", uses="sub", to="c", cpid="c1"), act("a2", uses="sub", to="d", cpid="d1")]),
+        step("s2")]), [child, workflow("d", [step("ds1", acts=[act("da1")])])])
+    out += bundle("sub_inputs", workflow("m", [
+        step("s1", acts=[act("a1", uses="sub", to="c", cpid="c1", opts={"v": 1})]), step("s2")]),
+        [workflow("c", [step("cs1", branches=[
+            branch("cb1", cond=A, steps=[step("cs11", acts=[act("ca1")])]),
+            branch("cb2", els=True, steps=[step("cs21", acts=[act("ca2")])])])])])
+    out += bundle("sub_child_fails", workflow("m", [
+        step("s1", acts=[act("a1", uses="sub", to="c", cpid="c1")]), step("s2")]),
+        [workflow("c", [step("cs1", acts=[act("ca1", uses="bad")])])])
+    out += bundle("sub_nested_missing", workflow("m", [
+        step("s1", acts=[act("a1", uses="sub", to="c", cpid="c1")], catches=[catch(NIL, [step("k1", acts=[act("ka1")])])]),
+        step("s2")]),
+        [workflow("c", [step("cs1", acts=[act("ca1", uses="sub", to="nomodel", cpid="g1")])])])
+    out += bundle("sub_same_twice", workflow("m", [
+        step("s1", acts=[act("a1", uses="sub", to="c", cpid="c1")]),
+        step("s2", acts=[act("a2", uses="sub", to="c", cpid="c1")])]), [workflow("c", [step("cs1")])])
+    return out
+
+
+def multi():
+    """independent workflows side by side in one engine (C13)"""
+    h = {ln["name"]: ln["spec"] for ln in hand()}
+    out = []
+    out += bundle("m_two_same", with_id(h["two_acts"], "m"))
+    out += bundle("m_two_diff", with_id(h["two_acts"], "m"), [with_id(h["catch_act"], "n")])
+    out += bundle("m_three", with_id(h["else_last"], "m"), [with_id(h["cancel_chain"], "n"), with_id(h["catch_step_two"], "o")])
+    out += bundle("m_par", with_id(h["par_branches"], "m"), [with_id(h["needs"], "n")])
+    out += bundle("m_err", with_id(h["no_uses"], "m"), [with_id(h["catch_all_empty"], "n")])
     return out
 
 
@@ -604,6 +690,8 @@ FAMILIES = {
     "timed": lambda a: timed(),
     "loops": lambda a: loops(),
     "timedunits": lambda a: timedunits(),
+    "subflow": lambda a: subflow(),
+    "multi": lambda a: multi(),
     "timedsmall": lambda a: [ln for ln in timed() if ln["name"] not in ("t_branches", "t_two_acts", "t_act_two_rules")],
     # the hand-written models without parallel interrupt branches (cheap with a larger client budget)
     "handseq": lambda a: [ln for ln in hand() if ln["name"] in SEQ_NAMES],
